@@ -120,6 +120,8 @@ var views = []viewSpec{
 	// an image at 0.25 px/mm is then placed with the factors (2.4, 1) resp. (1, -1): one factor is exactly 1
 	{"non-uniform scale (0.6, 0.25)", canvas.Identity.Scale(0.6, 0.25)},
 	{"mirror y -> 24-y and scale 0.25", canvas.Identity.Translate(0, 24).Scale(0.25, -0.25)},
+	// not a similarity although its rows are orthogonal: a non-uniform scale followed by a turn of 45 degrees
+	{"scale (0.8, 0.4) then rotate 45", canvas.Identity.Translate(14, -6).Rotate(45).Scale(0.8, 0.4)},
 }
 
 var coordSystems = []canvas.CoordSystem{canvas.CartesianI, canvas.CartesianIV}
